@@ -266,5 +266,7 @@ def run(tier, seed):
     recs = run_histories(tier, seed)
     judge(recs, res, "C03", ["C03.ok"])
     judge_store_ops(res)
+    import livepair
+    livepair.run_cert_change(res, tier)
     res.rule += " | every trust / revoke / clear / import step is judged as well: exactly the named pin changes (a third of the histories start with one host pinned on two ports and one pin renewed)"
     return res
